@@ -97,6 +97,8 @@ def oracle(top, res, dist):
         return 'ctor-refuses'
     b = res['built']
     cls = 'ok'
+    for what in res.get('construction', []):
+        note_failure(f'construction-draws/{root}', top, f'{expr}: {what}', 'no draw at construction (one for the child of a StaticGenerator)', what)
     for key, what in res.get('interference', []):
         note_failure(key, top, f'{expr}: {what}', 'unchanged', 'changed')
     for k, o in enumerate(res['outs']):
